@@ -197,6 +197,23 @@ struct Exec {
     evs.push_back(e);
   }
 
+  // a pointer INSIDE a live span ("an allocated memory block that contains the given rx")
+  void do_query_interior(size_t idx, vj::Rng& r) {
+    LiveSpan& s = live[idx];
+    size_t sz = s.span.size();
+    if (sz < 2) return;
+    unsigned k = (unsigned)r.below(6);
+    size_t off = k == 0 ? 1 : k == 1 ? sz - 1 : k == 2 ? (o.gran < sz ? o.gran : sz - 1) : k == 3 ? (o.gran + 10 < sz ? o.gran + 10 : sz - 1) : 1 + r.below(sz - 1);
+    Ev e; e.e = "Query"; e.kind = "interior"; e.id = s.id; e.n = (long long)off;
+    JitAllocator::Span q;
+    Error err = alloc->query(Out(q), static_cast<uint8_t*>(s.span.rx()) + off);
+    e.r = err_name(err);
+    e.rx = uint64_t(uintptr_t(q.rx())); e.rw = uint64_t(uintptr_t(q.rw())); e.len = (long long)q.size();
+    e.intact = all_intact();
+    stats(e);
+    evs.push_back(e);
+  }
+
   // foreign pointers: heap / stack / null / a released span whose memory is not part of a live span
   void do_query_foreign(unsigned kind, vj::Rng& r) {
     Ev e; e.e = "Query";
@@ -291,7 +308,7 @@ struct Exec {
       if (!e.kind.empty()) w.kv("kind", e.kind);
       if (!e.policy.empty()) { w.kv("policy", e.policy); w.kv("init", e.init); }
       if (!e.r.empty()) w.kv("r", e.r);
-      if (e.e == "Alloc" || e.e == "Shrink" || e.e == "Write" || (e.e == "Query" && e.kind == "live")) {
+      if (e.e == "Alloc" || e.e == "Shrink" || e.e == "Write" || (e.e == "Query" && (e.kind == "live" || e.kind == "interior"))) {
         w.kv("rx", norm(e.rx)).kv("rw", norm(e.rw)).kv("len", e.len);
       }
       if (e.e == "Query" && e.kind == "stale") w.kv("p", norm(e.rw)).kv("qrx", norm(e.rx)).kv("qlen", e.len);
@@ -359,7 +376,8 @@ static void run_random(Exec& ex, vj::Rng& r, unsigned ops) {
       size_t n = k == 0 ? 0 : k == 1 ? len : k == 2 ? len + 1 + r.below(1000) : k == 3 ? 1 : r.below(len + 1);
       ex.do_shrink(idx, n);
     }
-    else if (c < 82) ex.do_query_live(r.below(nlive));
+    else if (c < 79) ex.do_query_live(r.below(nlive));
+    else if (c < 82) ex.do_query_interior(r.below(nlive), r);
     else if (c < 88) ex.do_query_foreign((unsigned)r.below(4), r);
     else if (c < 97) {
       size_t idx = r.below(nlive);
